@@ -357,6 +357,9 @@ def fresh_child(ctx, fc, v, at, fc_of, depth=0):
                 d = get_arg(it, 0, "depth")
                 if isinstance(d, ast.Constant) and d.value == 1:
                     continue
+            if isinstance(it, ast.Subscript) and isinstance(it.value, ast.Call) and method_name(it.value) == "get_node_list" and \
+                    fc.fn.name == "__init__" and isinstance(it.slice, ast.Constant) and it.slice.value == 1:
+                continue        # layer 1 right after deepen() in the constructor: the root's fresh children
             return False, "loop over '%s' is not a loop over freshly created children" % src
         elif r[0] == "assign":
             ok, how = fresh_child(ctx, fc, r[1], n, fc_of, depth + 1) if depth < 2 else (False, "too deep")
@@ -565,13 +568,40 @@ def check_own(ctx):
             hits += 1
     if hits != 2:
         raise AnalysisError("R03-OWN self-check fixture no longer matches (%d hits)" % hits)
-    # PyXAB/partition itself: only make_children / __init__ / update_children may write
+    # PyXAB/partition itself: only make_children / __init__ / update_children may write - and private helpers that are called from
+    # nowhere else (the abstract step analysis executes them as part of make_children, so their writes are covered by the step
+    # obligations): a method name starting with '_' every call site of which, in the analysed packages, lies in an allowed method or
+    # in another such helper
+    callers = {}
+    for c in model.classes.values():
+        for fn in c.methods.values():
+            for n in ast.walk(fn):
+                if isinstance(n, ast.Call) and isinstance(n.func, ast.Attribute):
+                    callers.setdefault(n.func.attr, set()).add((c.name, fn.name, c.file))
+    for (fl, nm), f0 in model.functions.items():
+        for n in ast.walk(f0):
+            if isinstance(n, ast.Call) and isinstance(n.func, ast.Attribute):
+                callers.setdefault(n.func.attr, set()).add((None, nm, fl))
+    growth_internal = set()
+    changed = True
+    part_private = {fn.name for c in model.classes.values() if c.file.startswith("PyXAB/partition/") for fn in c.methods.values()
+                    if fn.name.startswith("_") and not fn.name.startswith("__")}
+    while changed:
+        changed = False
+        for nm in sorted(part_private - growth_internal):
+            cs = callers.get(nm, set())
+            if all(fl.startswith("PyXAB/partition/") and (m in ("__init__", "make_children", "update_children") or m in growth_internal)
+                   for (_c, m, fl) in cs):
+                growth_internal.add(nm)
+                changed = True
     for c in model.classes.values():
         if not c.file.startswith("PyXAB/partition/"):
             continue
         for fn in c.methods.values():
             if fn.name in ("__init__", "make_children", "update_children"):
                 continue
+            if fn.name in growth_internal:
+                continue        # a private helper reachable only from make_children / __init__ / update_children: part of the step
             qual = "%s.%s" % (c.name, fn.name)
             ctx.fn(qual)
             for n in ast.walk(fn):
